@@ -28,12 +28,12 @@ type scell struct {
 
 var strictTags = map[string]string{"json": "application/json", "vendor": "application/vnd.api+json", "text": "text/plain",
 	"form": "application/x-www-form-urlencoded", "multipart": "multipart/form-data", "mprelated": "multipart/related", "other": "application/octet-stream",
-	"wild": "image/*", "tagwild": "application/*+json", "none": ""}
+	"wild": "image/*", "tagwild": "application/*+json", "none": "", "jsonopen": "application/json"}
 
 func strictCells() []scell {
 	var out []scell
 	n := 0
-	for _, tag := range []string{"json", "vendor", "text", "form", "multipart", "mprelated", "other", "wild", "tagwild", "none"} {
+	for _, tag := range []string{"json", "vendor", "text", "form", "multipart", "mprelated", "other", "wild", "tagwild", "none", "jsonopen"} {
 		for _, status := range []string{"200", "4XX", "default"} {
 			for _, hdrs := range [][]string{nil, {"X-A", "X-N"}} {
 				for _, ref := range []bool{false, true} {
@@ -43,6 +43,8 @@ func strictCells() []scell {
 						group = "textopen" // known: type T string has no StatusCode / Headers
 					case tag == "tagwild":
 						group = "tagwild"
+					case tag == "jsonopen":
+						group = "open" // JSON body whose schema is a reference to a component with additionalProperties: true
 					case ref:
 						group = "ref"
 					}
@@ -62,6 +64,8 @@ func strictSchema(tag string) map[string]any {
 		return map[string]any{"type": "string"}
 	case "other", "wild":
 		return map[string]any{"type": "string", "format": "binary"}
+	case "jsonopen":
+		return map[string]any{"$ref": "#/components/schemas/Open"}
 	}
 	return obj
 }
@@ -85,10 +89,34 @@ func strictSpec(cells []scell) []byte {
 		paths["/"+c.Op] = map[string]any{"get": map[string]any{"operationId": c.Op, "responses": map[string]any{c.Status: r}}}
 	}
 	root := map[string]any{"openapi": "3.0.3", "info": map[string]any{"title": "strict", "version": "1"}, "paths": paths}
+	allComps := map[string]any{}
 	if len(comps) > 0 {
-		root["components"] = map[string]any{"responses": comps}
+		allComps["responses"] = comps
+	}
+	for _, c := range cells {
+		if c.Tag == "jsonopen" {
+			open := strictSchema("json")
+			open["additionalProperties"] = true
+			allComps["schemas"] = map[string]any{"Open": open}
+		}
+	}
+	if len(allComps) > 0 {
+		root["components"] = allComps
 	}
 	b, _ := json.Marshal(root)
+	return b
+}
+
+// declaredOnly: the body without its additional members (a and n are the declared ones)
+func declaredOnly(body any) json.RawMessage {
+	m, _ := body.(map[string]any)
+	out := map[string]any{}
+	for _, k := range []string{"a", "n"} {
+		if v, ok := m[k]; ok {
+			out[k] = v
+		}
+	}
+	b, _ := json.Marshal(out)
 	return b
 }
 
@@ -162,7 +190,7 @@ func shapeValue(code, typ string, val map[string]any) any {
 	}
 	if em := regexp.MustCompile(`^(\w+)$`).FindStringSubmatch(fields); em != nil {
 		inner := shapeValue(code, em[1], val)
-		innerIsStruct := regexp.MustCompile(`(?m)^type ` + em[1] + ` (=\s*)?struct\b`).MatchString(code)
+		innerIsStruct := underlyingIsStruct(code, em[1], 0)
 		if innerIsStruct {
 			return inner // promoted fields
 		}
@@ -174,9 +202,23 @@ func shapeValue(code, typ string, val map[string]any) any {
 	return body()
 }
 
+// underlyingIsStruct follows defined types and aliases (type X Y, type X = Y) down to a struct declaration.
+func underlyingIsStruct(code, name string, depth int) bool {
+	if depth > 8 {
+		return false
+	}
+	if regexp.MustCompile(`(?m)^type ` + name + ` (=\s*)?struct\b`).MatchString(code) {
+		return true
+	}
+	if am := regexp.MustCompile(`(?m)^type ` + name + ` (=\s*)?(\w+)\s*$`).FindStringSubmatch(code); am != nil {
+		return underlyingIsStruct(code, am[2], depth+1)
+	}
+	return false
+}
+
 func isStructDecl(d string) bool { return strings.HasPrefix(d, "struct") }
 
-var coqTag = map[string]string{"json": "TJson", "vendor": "TJson", "text": "TText", "form": "TForm", "multipart": "TMultipart", "mprelated": "TMultipart", "other": "TOther", "wild": "TOther", "tagwild": "TJson"}
+var coqTag = map[string]string{"jsonopen": "TJson", "json": "TJson", "vendor": "TJson", "text": "TText", "form": "TForm", "multipart": "TMultipart", "mprelated": "TMultipart", "other": "TOther", "wild": "TOther", "tagwild": "TJson"}
 
 func coqCell(c scell) string {
 	fs := "None"
@@ -256,10 +298,13 @@ func runC12(r *Report, rng *rand.Rand, thorough bool) {
 					switch c.Tag {
 					case "json", "vendor", "tagwild":
 						val["Body"] = map[string]any{"a": []string{"x", "é\"q", "multi\nline"}[rng.Intn(3)], "n": rng.Intn(100)}
+					case "jsonopen":
+						val["Body"] = map[string]any{"a": "x", "n": rng.Intn(100), "extra": "more", "zz": []int{1, 2}}
 					case "form":
 						val["Body"] = map[string]any{"a": []string{"x", "a b&c"}[rng.Intn(2)], "n": rng.Intn(100)}
 					case "text":
-						val["Body"] = []string{"hello", "ü text", ""}[rng.Intn(3)]
+						// incl. text that a formatting function would read as verbs, and text with line breaks
+						val["Body"] = []string{"hello", "ü text", "", "100% sure: %d items, 50%", "a%20b%2Fc %s %v %%", "line one\nline two\r\n"}[rng.Intn(6)]
 					case "multipart", "mprelated":
 						val["Body"] = map[string]string{"f": "v" + fmt.Sprint(rng.Intn(9))}
 					case "other", "wild":
@@ -492,7 +537,7 @@ func runC12(r *Report, rng *rand.Rand, thorough bool) {
 			}
 			// body
 			switch m.cell.Tag {
-			case "json", "vendor", "tagwild":
+			case "json", "vendor", "tagwild", "jsonopen":
 				wb, _ := json.Marshal(val["Body"])
 				if !jsonEqual(json.RawMessage(res.RespBody), wb) {
 					problems = append(problems, fmt.Sprintf("body %q, want JSON %s", res.RespBody, wb))
@@ -526,6 +571,10 @@ func runC12(r *Report, rng *rand.Rand, thorough bool) {
 					sig = "referenced_form_response_keys_bracketed"
 				case (m.fw == "fiber" || m.fw == "iris") && m.cell.Tag == "vendor" && len(problems) == 1 && strings.HasPrefix(problems[0], `Content-Type "application/json`):
 					sig = m.fw + "_vendor_json_content_type_overwritten"
+				case m.cell.Tag == "jsonopen" && len(problems) == 1 && strings.HasPrefix(problems[0], "body ") && jsonEqual(json.RawMessage(res.RespBody), declaredOnly(val["Body"])):
+					// the response type is a defined type over the referenced schema's type (type T Open): it does not inherit
+					// Open's MarshalJSON, so the additional members the handler supplied are not written
+					sig = "strict_json_response_of_referenced_schema_loses_additional_members"
 				case m.fw == "iris" && m.cell.Tag == "none" && m.cell.Status != "200" && len(problems) == 1 && strings.HasPrefix(problems[0], "body written"):
 					sig = "iris_writes_error_body_for_no_content_error_status"
 				}
@@ -559,5 +608,5 @@ func runC12(r *Report, rng *rand.Rand, thorough bool) {
 	vcases.WriteTo(r)
 	bcases.WriteTo(r)
 	r.Exhaustive = true
-	r.Rule = "response cells: media type {application/json, vendor +json, text/plain, form, multipart/form-data, multipart/related, octet-stream, image/* (wildcard), application/*+json (tagged wildcard), no content} x status {200, 4XX, default} x headers {none, two} x {inline, component reference}, each returned by a recording strict handler of each of the 7 frameworks with generated values (and with / without a strict middleware); observed status, Content-Type, headers and body vs the declaration and vs the model in Coq; handler error -> error path; request side: JSON (+charset), vendor +json on POST and merge-patch+json on PATCH, malformed JSON documents (rejected with 400), form, text, multipart, octet-stream and multi-body operations x Content-Types incl. undeclared, path/query/header parameters in the request object; non-trivial = not the plain JSON 200 cell"
+	r.Rule = "response cells: media type {application/json, vendor +json, text/plain, form, multipart/form-data, multipart/related, octet-stream, image/* (wildcard), application/*+json (tagged wildcard), no content} x status {200, 4XX, default} x headers {none, two} x {inline, component reference}, plus JSON bodies whose schema is a reference to a component with additionalProperties: true (additional members supplied by the handler), each returned by a recording strict handler of each of the 7 frameworks with generated values (and with / without a strict middleware); observed status, Content-Type, headers and body vs the declaration and vs the model in Coq; handler error -> error path; request side: JSON (+charset), vendor +json on POST and merge-patch+json on PATCH, malformed JSON documents (rejected with 400), form, text, multipart, octet-stream and multi-body operations x Content-Types incl. undeclared, path/query/header parameters in the request object; non-trivial = not the plain JSON 200 cell"
 }
